@@ -56,7 +56,8 @@ def gen_model(rng, modname, profile="orm"):
             if profile == "diagram" and kind == "type" and rng.random() < 0.4:
                 kind = "opt_type"       # a type-valued field that may be missing
             if profile == "diagram" and kind in ("list_str", "list_int", "set_str", "set_int") and rng.random() < 0.5:
-                kind = rng.choice(["list_opt_int", "tuple_str"])    # elements that may be missing, a tuple of any length
+                # elements that may be missing, a tuple of any length, an annotation that is neither a class nor a collection
+                kind = rng.choice(["list_opt_int", "tuple_str", "dict_str_int", "opt_dict_str_int"])
             if profile == "diagram" and kind in ("list_ref", "opt_ref") and rng.random() < 0.3:
                 # two wrappers: a collection that may be missing, a collection of elements that may be missing
                 kind = "opt_list_ref" if kind == "opt_ref" else "list_opt_ref"
@@ -175,6 +176,10 @@ def _annotation(f, quote=False):
         return "List[Optional[int]]", "field(default_factory=list)"
     if k == "tuple_str":
         return "Tuple[str, ...]", "()"
+    if k == "dict_str_int":
+        return "Dict[str, int]", "field(default_factory=dict)"
+    if k == "opt_dict_str_int":
+        return "Optional[Dict[str, int]]", "None"
     raise ValueError(k)
 
 
@@ -183,7 +188,7 @@ ENUM_MODULE_SOURCE = "from enum import Enum\n\n\nclass Color(Enum):\n    R = 'r'
 
 def render(spec, postponed=True):
     lines = (["from __future__ import annotations"] if postponed else []) + ["from dataclasses import dataclass, field",
-             "from typing_extensions import List, Optional, Set, Tuple, Type, Union", "from enum import Enum",
+             "from typing_extensions import Dict, List, Optional, Set, Tuple, Type, Union", "from enum import Enum",
              "from datetime import datetime", "import uuid", "", "", "class Color(Enum):", "    R = 'r'", "    G = 'g'", "    B = 'b'", "", ""]
     if spec.get("enum_module"):
         # the enum lives in a module of its own that holds no mapped class (ENUM_MODULE_SOURCE, written next to the model)
@@ -260,7 +265,7 @@ def render_split(spec):
         other = "b" if s_ == "a" else "a"
         names_other = [n for n, sd in side.items() if sd == other]
         lines = ["from __future__ import annotations", "from dataclasses import dataclass, field",
-                 "from typing_extensions import List, Optional, Set, Tuple, Type, Union, TYPE_CHECKING", "from enum import Enum",
+                 "from typing_extensions import Dict, List, Optional, Set, Tuple, Type, Union, TYPE_CHECKING", "from enum import Enum",
                  "from datetime import datetime", "import uuid", f"from {spec['module']}_enum import Color", ""]
         if names_other:
             lines += ["if TYPE_CHECKING:", f"    from {spec['module']}_{other} import " + ", ".join(names_other), ""]
